@@ -142,12 +142,20 @@ CLAIMS = {
              "files that are not well-formed.",
         note=TRUST + "Card-length lemma: strlen(key)+1+strlen(value)+1 <= 82 for any card cfitsio returns.",
         technique="allocation-site enumeration vs size-model terms (affine capacity matching), release-before-allocate dataflow"),
+    "C17": dict(
+        text="Decides ONE structural clause: the wiring of grid evaluation. Row-major decomposition of the coefficient array with the table's "
+             "strides into a sparse n-tuple of exactly the non-zero coefficients with the axis lengths as ranges; per dimension the table's own "
+             "knots/knot count/order and that dimension's coordinate vector feed bsplinebasis, transposed, applied along the same dimension, for "
+             "all dimensions; bsplinebasis fills basis(row,col) = bspline(knots,x[row],col,order) column-major with nknots-order-1 columns and "
+             "its private bspline() is a clone of the library's reference; the C wrapper forwards and hands the result over once. Numerical "
+             "agreement with pointwise evaluation is not decided.",
+        note=TRUST + "slicemultiply is assumed to compute the mode-i product (index arithmetic over runtime shapes, not analysed).",
+        technique="call-wiring and sibling-clone rules over the instantiated AST (alpha-normalised)"),
 }
 
 NOT_APPLICABLE = {
     "C01": "numerical identity between a floating-point result and a mathematical sum over runtime knots/coefficients; no structural clause beyond those decided under C02/C04/C05",
     "C09": "numerical optimality of a sparse linear solve assembled through CHOLMOD; no clause visible in code shape",
-    "C17": "numerical agreement of two evaluation routes through CHOLMOD products; no necessary structural clause",
 }
 
 # properties whose check is designed (DESIGN.md §4) but not yet built in this tree
